@@ -1,6 +1,7 @@
 package harness
 
 import (
+	"runtime"
 	"fmt"
 	"strings"
 	"time"
@@ -16,10 +17,10 @@ func init() {
 	register(&Prop{
 		ID:    "C11",
 		Level: "exploration",
-		Rule: "case = (set of pending client commands of every kind the client parses data for: FETCH, UID FETCH, LIST, STATUS, SEARCH, UID SEARCH RETURN, SORT, THREAD, GETQUOTA, GETQUOTAROOT, GETMETADATA, NAMESPACE, COPY, MOVE, EXPUNGE, CAPABILITY, ENABLE; a byzantine scripted server that sends grammar-generated responses of all those kinds plus SELECT-time codes, with token- and byte-level mutations, boundary numbers 0 / 2^32-1 / 2^32 / 2^63-1 / overflow, '*' and open ranges in result sets, nesting depths 10..300000 in body structures, threads, envelopes and lists, unmatched continuation requests, unknown tags, literal size lies, raw garbage, then completes or drops the commands), segmentation and schedule. The caller drains every command and calls every accessor on everything delivered. " +
+		Rule: "case = (set of pending client commands of every kind the client parses data for: FETCH, UID FETCH, LIST, STATUS, SEARCH, UID SEARCH RETURN, SORT, THREAD, GETQUOTA, GETQUOTAROOT, GETMETADATA, NAMESPACE, COPY, MOVE, EXPUNGE, CAPABILITY, ENABLE; a byzantine scripted server that sends grammar-generated responses of all those kinds plus SELECT-time codes, with token- and byte-level mutations, boundary numbers 0 / 2^32-1 / 2^32 / 2^63-1 / overflow, '*' and open ranges in result sets, nesting depths 10..300000 in body structures, threads, envelopes and lists, unmatched continuation requests, unknown tags, literal size lies and literals announcing 2^29..2^63 bytes in buffered-string positions, raw garbage, then completes or drops the commands), segmentation and schedule. The caller drains every command and calls every accessor on everything delivered. " +
 			"Non-trivial: at least one hostile line was sent while commands were pending. Distinct: distinct event-log hashes.",
 		Components:   "real: imapclient.Client and all its response parsers, internal/imapwire decoder, imap number sets (woven); stub: byzantine scripted server, network, clock, scheduler",
-		Assumptions:  []string{"time and memory growth are not measured (the clock is simulated): super-linear behaviour is out of reach of this technique; unbounded recursion is caught as a stack-overflow crash under a 64 MiB stack cap", "enumerating accessors (Nums, AllSeqNums, AllUIDs) are only invoked on sets whose cardinality, computed by the harness in 64-bit arithmetic, is below 10^6"},
+		Assumptions:  []string{"time growth is not measured (the clock is simulated): super-linear running time is out of reach of this technique; memory is measured coarsely (a run that allocates more than 256 MiB for less than 4 MiB of server data is an amplification); unbounded recursion is caught as a stack-overflow crash under a 64 MiB stack cap", "enumerating accessors (Nums, AllSeqNums, AllUIDs) are only invoked on sets whose cardinality, computed by the harness in 64-bit arithmetic, is below 10^6"},
 		QuickRuns:    12000,
 		ThoroughRuns: 400000,
 		Run:          runC11,
@@ -62,7 +63,14 @@ func c11envelope(t *simrt.Tape) string {
 func c11line(t *simrt.Tape, tags []string) string {
 	n := func() string { return c11nums[t.Choose(len(c11nums))] }
 	small := func() string { return fmt.Sprint(1 + t.Choose(9)) }
-	switch t.Choose(32) {
+	switch t.Choose(35) {
+	case 32, 33, 34:
+		// a literal announcing an enormous size in a position where the client buffers the string; the data never comes
+		size := []string{"536870912", "2147483648", "4294967296", "1099511627776", "9223372036854775807", "99999999999999999999"}[t.Choose(6)]
+		lit := "{" + size + "}\r\n"
+		return []string{"* STATUS " + lit + "box (MESSAGES 1)", `* LIST () "/" ` + lit + "name", "* QUOTA " + lit + "root (STORAGE 1 2)",
+			"* NAMESPACE ((" + lit + `pfx "/")) NIL NIL`, "* 1 FETCH (ENVELOPE (" + lit + "date NIL NIL NIL NIL NIL NIL NIL NIL NIL))", "* ESEARCH (TAG " + lit + "T3) ALL 1",
+			"* METADATA " + lit + "INBOX (/private/x NIL)", `* METADATA "INBOX" (/private/x ` + lit + "v)", "* OK [BADCHARSET (" + lit + "x)] text", "* 1 FETCH (BODY (\"TEXT\" " + lit + "plain"}[t.Choose(10)]
 	case 0:
 		return "* " + n() + " EXISTS"
 	case 1:
@@ -377,6 +385,28 @@ func runC11(r *R) {
 	}
 	r.Tracef("pending commands: %v, ending=%d", chosen, ending)
 	var closeErr error
+	hostileBytes := 0
+	for _, l := range lines {
+		hostileBytes += len(l)
+	}
+	var ms0, ms1 runtime.MemStats
+	runtime.ReadMemStats(&ms0)
+	defer func() {
+		// memory the whole run allocated, against the size of what the server sent: an allocation driven by a
+		// number in the input instead of by the input's size is the amplification the property forbids
+		runtime.ReadMemStats(&ms1)
+		alloc := ms1.TotalAlloc - ms0.TotalAlloc
+		mb := alloc >> 20
+		switch {
+		case mb >= 64:
+			r.Probes["alloc_mb_64_or_more"]++
+		case mb >= 16:
+			r.Probes["alloc_mb_16_to_63"]++
+		}
+		if alloc > 256<<20 && uint64(hostileBytes) < 4<<20 && r.Res.Infra == "" {
+			r.Violate("memory-amplification", "", "the run allocated %d MiB although the server sent only %d bytes of hostile data (an allocation sized by a number in the input)", mb, hostileBytes)
+		}
+	}()
 	r.Sim(cfg, func() {
 		cc, sc := r.Net.Pair("cli", "srv")
 		switch netMode {
